@@ -14,9 +14,10 @@
 // Dump format (one graph):
 //   D <size>                                         size = number of node handles handed out so far
 //   o <h> ...                                        Circuit::m_nodes in storage order
-//   n <h> <id> <sig> <ref> <grp|-> <nIn> <d.p|-|?>… <nOut> {<kind> <width> <nCons> <c.p|?>…}… <nClk> <clk|-|?>…
+//   n <h> <id> <cls> <ref> <grp|-> <nIn> <d.p|-|?>… <nOut> {<kind> <width> <nCons> <c.p|?>…}… <nClk> <clk|-|?>…
 //   g <gid> <n> <h|?>…                                NodeGroup::m_nodes in order
-//   k <cid> <n> <h.p|?>…                              Clock::getClockedNodes(), sorted    (k <cid> x : the clock has been destroyed)
+//   k <cid> <clkdrv|-|?> <rstdrv|-|?> <n> <h.p|?>…     Clock::m_clockDriver, m_resetDriver, getClockedNodes() sorted  (k <cid> x : destroyed)
+//   <cls>: 0 other, 1 Node_Signal, 2 Node_Signal2Clk, 3 Node_Signal2Rst
 //   t <h> <KIND> …                                    (design mode) node kind and the parameters the type check needs
 //   .
 // A pointer that does not belong to a live node / group / clock of this circuit is printed as '?' without being dereferenced.
@@ -38,6 +39,8 @@
 #include <gatery/hlim/coreNodes/Node_Shift.h>
 #include <gatery/hlim/coreNodes/Node_Pin.h>
 #include <gatery/hlim/coreNodes/Node_PriorityConditional.h>
+#include <gatery/hlim/coreNodes/Node_Signal2Clk.h>
+#include <gatery/hlim/coreNodes/Node_Signal2Rst.h>
 #include <gatery/hlim/supportNodes/Node_External.h>
 #include <gatery/hlim/supportNodes/Node_MemPort.h>
 #include <gatery/hlim/postprocessing/MemoryDetector.h>
@@ -71,6 +74,24 @@ static void collectGroups(const hlim::NodeGroup *g, Maps &m) {
 	m.group[g] = m.groups.size();
 	m.groups.push_back(g);
 	for (auto &c : g->getChildren()) collectGroups(c.get(), m);
+}
+
+// the two driver slots of a clock are protected members without accessor: read them through member pointers (no dereference of the
+// node pointers themselves)
+struct ClockPeek : public hlim::Clock {
+	static hlim::Node_Signal2Clk *clkDrv(const hlim::Clock *c) { return c->*(&ClockPeek::m_clockDriver); }
+	static hlim::Node_Signal2Rst *rstDrv(const hlim::Clock *c) { return c->*(&ClockPeek::m_resetDriver); }
+};
+static int classOf(const BaseNode *n) {
+	if (dynamic_cast<const hlim::Node_Signal*>(n)) return 1;
+	if (dynamic_cast<const hlim::Node_Signal2Clk*>(n)) return 2;
+	if (dynamic_cast<const hlim::Node_Signal2Rst*>(n)) return 3;
+	return 0;
+}
+static std::string slotStr(const Maps &m, const BaseNode *n) {
+	if (n == nullptr) return "-";
+	auto it = m.node.find(n);
+	return it == m.node.end() ? "?" : std::to_string(it->second);
 }
 
 static std::string np(const Maps &m, const NodePort &p) {
@@ -110,7 +131,7 @@ static void dumpGraph(std::ostream &o, const hlim::Circuit &c, const Maps &m, bo
 	}
 	std::sort(live.begin(), live.end());
 	for (auto [h, n] : live) {
-		o << "n " << h << ' ' << n->getId() << ' ' << (dynamic_cast<const hlim::Node_Signal*>(n) ? 1 : 0) << ' ' << (n->hasRef() ? 1 : 0) << ' ';
+		o << "n " << h << ' ' << n->getId() << ' ' << classOf(n) << ' ' << (n->hasRef() ? 1 : 0) << ' ';
 		if (n->getGroup() == nullptr) o << '-';
 		else { auto it = m.group.find(n->getGroup()); if (it == m.group.end()) o << '?'; else o << it->second; }
 		o << ' ' << n->getNumInputPorts();
@@ -141,7 +162,7 @@ static void dumpGraph(std::ostream &o, const hlim::Circuit &c, const Maps &m, bo
 		std::vector<std::pair<size_t, size_t>> known; size_t unknown = 0;
 		for (auto &p : cn) { auto it = m.node.find(p.node); if (it == m.node.end()) unknown++; else known.push_back({it->second, p.port}); }
 		std::sort(known.begin(), known.end());
-		o << "k " << k << ' ' << cn.size();
+		o << "k " << k << ' ' << slotStr(m, ClockPeek::clkDrv(m.clocks[k])) << ' ' << slotStr(m, ClockPeek::rstDrv(m.clocks[k])) << ' ' << cn.size();
 		for (auto &p : known) o << ' ' << p.first << '.' << p.second;
 		for (size_t i = 0; i < unknown; i++) o << " ?";
 		o << '\n';
@@ -211,6 +232,9 @@ struct OpsCase {
 		for (auto &c : circuit.getClocks())
 			if (!m.clock.count(c.get())) { m.clock[c.get()] = clocks.size(); m.clocks.push_back(c.get()); clocks.push_back(c.get()); }
 	}
+	static bool isDrv(const BaseNode *n) { return classOf(n) >= 2; }
+	// hasSideEffects() of a Signal2Clk/Rst: bound to a clock; no pass deletes such a node and its clock port belongs to setLogic…Driver
+	static bool boundDrv(const BaseNode *n) { return isDrv(n) && n->getClocks()[0] != nullptr; }
 	std::vector<size_t> liveClocks() const {
 		std::vector<size_t> v;
 		for (size_t c = 0; c < clocks.size(); c++) if (clocks[c]) v.push_back(c);
@@ -244,10 +268,12 @@ struct OpsCase {
 		if (k < 40) { n = circuit.createNode<hlim::Node_Signal>(); kn = "S"; }
 		else if (k < 65) { n = circuit.createNode<XNode>(rng.below(4), rng.below(3) + (rng.chance(3, 4) ? 1 : 0)); kn = "X"; }
 		else if (k < 75) { n = circuit.createNode<hlim::Node_Register>(); kn = "R"; }
-		else if (k < 83) { n = circuit.createNode<hlim::Node_Multiplexer>(1 + rng.below(3)); kn = "M"; }
-		else if (k < 90) { n = circuit.createNode<hlim::Node_Logic>(hlim::Node_Logic::AND); kn = "L"; }
-		else if (k < 93) { n = circuit.createNode<hlim::Node_Rewire>(1 + rng.below(3)); kn = "W"; }
-		else if (k < 95) { n = circuit.createNode<hlim::Node_Pin>(true, false, false); kn = "P"; }
+		else if (k < 81) { n = circuit.createNode<hlim::Node_Multiplexer>(1 + rng.below(3)); kn = "M"; }
+		else if (k < 85) { n = circuit.createNode<hlim::Node_Logic>(hlim::Node_Logic::AND); kn = "L"; }
+		else if (k < 88) { n = circuit.createNode<hlim::Node_Signal2Clk>(); kn = "K"; }
+		else if (k < 91) { n = circuit.createNode<hlim::Node_Signal2Rst>(); kn = "Z"; }
+		else if (k < 94) { n = circuit.createNode<hlim::Node_Rewire>(1 + rng.below(3)); kn = "W"; }
+		else if (k < 96) { n = circuit.createNode<hlim::Node_Pin>(true, false, false); kn = "P"; }
 		else if (k < 98) { n = circuit.createNode<hlim::Node_MemPort>(1 + rng.below(4)); kn = "T"; }
 		else { n = circuit.createNode<hlim::Node_Constant>(true); kn = "C"; }
 		size_t h = byHandle.size();
@@ -256,6 +282,33 @@ struct OpsCase {
 		for (size_t i = 0; i < n->getNumOutputPorts(); i++) o << ' ' << (int)n->getOutputConnectionType(i).type << ' ' << n->getOutputConnectionType(i).width;
 		o << "\nr ok\n";
 		dump();
+	}
+
+	BaseNode *newKind(bool clkDriver) {
+		BaseNode *n = clkDriver ? (BaseNode*)circuit.createNode<hlim::Node_Signal2Clk>() : (BaseNode*)circuit.createNode<hlim::Node_Signal2Rst>();
+		size_t h = byHandle.size();
+		byHandle.push_back(n); m.node[n] = h; m.size = byHandle.size();
+		o << "op new " << (clkDriver ? "K" : "Z") << " 0 " << n->getNumInputPorts() << ' ' << n->getNumOutputPorts() << ' ' << n->getClocks().size() << "\nr ok\n";
+		dump();
+		return n;
+	}
+	void setDrv(size_t ci, BaseNode *n) {
+		bool isClk = classOf(n) == 2;
+		exec("setdrv " + std::to_string(isClk ? 1 : 2) + " " + std::to_string(ci) + " " + std::to_string(m.node[n]), [&] {
+			if (isClk) clocks[ci]->setLogicClockDriver(static_cast<hlim::Node_Signal2Clk*>(n));
+			else clocks[ci]->setLogicResetDriver(static_cast<hlim::Node_Signal2Rst*>(n));
+		});
+	}
+	// what the frontend's Clock::overrideClkWith / overrideRstWith do (fresh driver node, connect, bind), in either order, repeated
+	void overrideSeq(size_t ci) {
+		size_t rounds = 1 + rng.below(3);
+		for (size_t r = 0; r < rounds * 2; r++) {
+			bool clk = rng.chance(1, 2);
+			BaseNode *n = newKind(clk);
+			NodePort d; std::string ds = target(true, d);
+			exec("connect " + std::to_string(m.node[n]) + " 0 " + ds, [&] { n->rewireInput(0, d); });
+			setDrv(ci, n);
+		}
 	}
 
 	void step() {
@@ -270,7 +323,7 @@ struct OpsCase {
 			size_t hc = byHandle.size() - 1;
 			BaseNode *cl = byHandle[hc];
 			if (cl == nullptr || cl == n) return;
-			for (size_t p = 0; p < n->getClocks().size() && p < cl->getClocks().size(); p++) {
+			for (size_t p = 0; !isDrv(n) && p < n->getClocks().size() && p < cl->getClocks().size(); p++) {
 				hlim::Clock *c = n->getClocks()[p];
 				if (c == nullptr || !m.clock.count(c) || !rng.chance(2, 3)) continue;
 				size_t ci = m.clock[c];
@@ -285,7 +338,7 @@ struct OpsCase {
 				auto &v = circuit.getNodes();
 				BaseNode *victim = rng.chance(1, 2) ? n : cl;
 				size_t i = 0; while (i < v.size() && v[i].get() != victim) i++;
-				if (i < v.size() && !victim->hasRef())
+				if (i < v.size() && !victim->hasRef() && !boundDrv(victim))
 					exec("erase " + std::to_string(i), [&] { if (i + 1 != v.size()) v[i] = std::move(v.back()); v.pop_back(); });
 			}
 		} else if (op >= 39 && op < 42) { // Circuit::copySubnet of the cone behind some outputs, cut at some inputs
@@ -364,6 +417,7 @@ struct OpsCase {
 				else c = circuit.createClock<hlim::RootClock>("clk", hlim::ClockRational(1000, 1));
 				m.clock[c] = clocks.size(); m.clocks.push_back(c); clocks.push_back(c);
 				o << "op newclock " << (own ? "own" : "circuit") << "\nr ok\n"; dump();
+				if (rng.chance(1, 2)) overrideSeq(clocks.size() - 1);
 				return;
 			}
 			if (rng.chance(1, 12)) { // destroy a clock that does not belong to the circuit while nodes may still be attached
@@ -375,6 +429,14 @@ struct OpsCase {
 				return;
 			}
 			if (lc.empty()) return;
+			if (rng.chance(1, 10)) { overrideSeq(lc[rng.below(lc.size())]); return; }
+			if (isDrv(n)) { // Clock::setLogicClockDriver / setLogicResetDriver: first binding, re-binding, replacing the current driver
+				size_t ci = lc[rng.below(lc.size())];
+				bool isClk = classOf(n) == 2;
+				for (auto c2 : lc) if (c2 != ci && (isClk ? (BaseNode*)ClockPeek::clkDrv(clocks[c2]) : (BaseNode*)ClockPeek::rstDrv(clocks[c2])) == n) return; // one clock per driver node
+				setDrv(ci, n);
+				return;
+			}
 			bool toNull = rng.chance(1, 6);
 			size_t c = lc[rng.below(lc.size())];
 			std::string cs = toNull ? "-" : std::to_string(c);
@@ -396,6 +458,7 @@ struct OpsCase {
 			auto &v = circuit.getNodes();
 			size_t i = rng.below(v.size());
 			if (v[i]->hasRef()) return;   // every pass checks hasRef() first
+			if (boundDrv(v[i].get())) return;   // … and never deletes a node with side effects
 			exec("erase " + std::to_string(i), [&] {
 				if (i + 1 != v.size()) v[i] = std::move(v.back());
 				v.pop_back();
@@ -682,6 +745,22 @@ static void runDesignCase(Rng &rng, uint64_t id, size_t nstmts) {
 				g.stmt(0);
 				for (size_t j = (nzero + nstmts - 1 - i) / nstmts; j > 0 && nzero > 0; j--, nzero--) g.zstmt();
 				if (rng.chance(1, 10)) dumpAt("construction", design.getCircuit());
+			}
+			// clocks whose clock and/or reset are driven by logic (Clock::overrideClkWith / overrideRstWith → Node_Signal2Clk / Node_Signal2Rst
+			// + Clock::setLogicClockDriver / setLogicResetDriver), in both orders and overridden again
+			for (size_t nx = rng.below(3); nx > 0; nx--) {
+				Clock gc({ .absoluteFrequency = 100'000'000, .name = g.name("gclk"), .resetName = g.name("grst") });
+				size_t calls = 1 + rng.below(4);
+				bool first = rng.chance(1, 2);
+				for (size_t r = 0; r < calls; r++) {
+					Bit ctl = rng.chance(2, 3) ? Bit(pinIn().setName(g.name("gctl"))) : g.b();
+					bool doClk = (r < 2) ? (first == (r == 0)) : rng.chance(1, 2);
+					if (doClk) gc.overrideClkWith(clock.clkSignal() & ctl); else gc.overrideRstWith(ctl);
+				}
+				UInt cnt = BitWidth{(unsigned)(1 + rng.below(5))};
+				cnt = reg(cnt + 1, 0, { .clock = gc });
+				pinOut(allowClockDomainCrossing(cnt, gc, clock)).setName(g.name("gout"));
+				if (rng.chance(1, 3)) dumpAt("construction", design.getCircuit());
 			}
 			size_t nout = 1 + rng.below(4);
 			for (size_t i = 0; i < nout; i++) {
